@@ -12,7 +12,9 @@ def nontrivial(case, v):
 def extra(cases, verdicts):
     rows = sum(1 for c in cases for r in (c.get("impl") or {}).get("rows", []) if r)
     nowait = sum(verdicts.get(c["id"], {}).get("info", {}).get("nowait_cost_rows", 0) for c in cases)
+    value = sum(verdicts.get(c["id"], {}).get("info", {}).get("value_rows", 0) for c in cases)
     return {"quotes_compared_with_realised_change": rows, "cost_objective_rows_without_waiting": nowait,
+            "rows_with_value_layer": value, "value_read_mode": {m: sum(1 for c in cases if (c.get("values") or {}).get("mode") == m) for m in ("job", "actor")},
             "objective_mix": {"cost": sum(1 for c in cases if c["obj"] == "cost"), "distance": sum(1 for c in cases if c["obj"] == "distance")}}
 
 
@@ -26,11 +28,12 @@ PROP = dict(
          "before/after from the real GoalContext::fitness. Non-trivial: tour has >= 2 activities and a quote with a non-zero transport "
          "component. Distinct = SHA-256 of the canonical case input",
     modelled="FeatureObjective::estimate and ::fitness of minimize_unassigned, fleet_usage (minimize tours), transport "
-             "(DistanceObjective/estimate_leg, CostObjective::estimate_route/estimate_activity, get_total_cost); Goal::estimate layering",
-    out_of_model="maximize-value (constant per job; not generated), balance/compactness/fast-service objectives (not additive, not claimed), "
+             "(DistanceObjective/estimate_leg, CostObjective::estimate_route/estimate_activity, get_total_cost), total_value "
+             "(MaximizeTotalValueObjective::estimate/fitness, per job and per (actor, job)); Goal::estimate layering",
+    out_of_model="balance/compactness/fast-service objectives (not additive, not claimed), "
                  "time-dependent routing, f64 rounding (integer data)",
     assumptions=["the job is listed as unassigned before the insertion (as InsertionContext::new leaves it); one vehicle; "
-                 "harness goal layers [min-unassigned, min-tours, distance | cost]"],
+                 "harness goal layers [min-unassigned, min-tours, distance | cost] and, in two cases of three, a fourth layer maximize-value"],
 )
 
 META = dict(
@@ -39,10 +42,13 @@ META = dict(
          "distance (distance_estimate_exact, distance_estimate_first, quote_exact_distance), and - for the combined cost objective on a tour that "
          "already has jobs, when nobody waits in the tour before and after the insertion - for the total cost fixed + distance x per-distance "
          "+ duration x per-time (noWait, after_noWait, futureWaiting_noWait, leg_estimate_exact for any additive metric, "
-         "cost_estimate_noWait, quote_exact_cost_noWait). Tie: exact differential run — quote, chosen "
+         "cost_estimate_noWait, quote_exact_cost_noWait), and for the first job of an unused tour (quote_exact_cost_first: fixed cost + the new tour's distance and duration cost); for the total value of served jobs the quote -value(job) is the change of the layer's "
+         "value at every position (sum_insertAt, quote_exact_value). Tie: exact differential run — quote, chosen "
          "place/window and the fitness vectors before/after from the real code equal the model's; oracle on the real numbers: realised "
          "change == quote per additive layer, and for the combined cost objective whenever the tour has no waiting before and after.",
-    note=COMMON_NOTE + " Partial: with waiting the cost quote is an estimate by design (the property excludes it); cost exactness for the FIRST job of a tour and "
-         "maximize-value are not proved (oracle / out of model).",
+    note=COMMON_NOTE + " Every clause of the statement has a theorem about the model (unassigned, tours, distance, value at every position; combined "
+         "cost without waiting for a tour with jobs - quote_exact_cost_noWait - and for the first job of an unused tour - quote_exact_cost_first). "
+         "With waiting the cost quote is an estimate by design (the property excludes it). Limits of the model: one vehicle, single-task jobs, "
+         "time-independent routing, integer data (f64 rounding out of model).",
     technique="Lean 4 list lemmas (totalDist over append, omega) + exact differential correspondence of quotes and realised fitness changes",
 )
